@@ -10,7 +10,7 @@
 //	E <text>                                             error or panic:<msg>
 //	X
 //
-// Usage: c14 gen <count> <maxdepth> | placements <maxn> | pairs <maxn> <cxonly 0|1> |
+// Usage: c14 gen <count> <maxdepth> | placements <maxn> | pairs <maxn> <cxonly 0|1> | angles |
 //
 //	layers <minn> <maxn> | replay <file>   (file: first line n, then one gate per line)
 package main
@@ -191,13 +191,67 @@ func runCase(tag string, n int, gs []gate) {
 
 // ---- generators ----
 
-func angle(r *common.Rng) string {
+// generic angle: away from the multiples of pi/2 (every entry of the gate is clearly non-zero)
+func genericAngle(r *common.Rng) string {
 	for {
 		a := 0.1 + float64(r.Intn(61000))/10000.0
 		c, s := math.Cos(a/2), math.Sin(a/2)
 		c2, s2 := math.Cos(a), math.Sin(a)
 		if math.Abs(c) > 0.05 && math.Abs(s) > 0.05 && math.Abs(c2) > 0.05 && math.Abs(s2) > 0.05 {
 			return strconv.FormatFloat(a, 'f', 4, 64)
+		}
+	}
+}
+
+// fixed list of special angles: 0, multiples of pi/2 up to +-6pi (written with more digits than a
+// float32 holds), angles of more than one and more than two turns (rx/ry/rz have period 4pi, the phase
+// gates 2pi), negative, tiny, large, and values that lose precision when narrowed to float32
+func specialAngles() []string {
+	res := []string{"0", "7.0", "-8.5", "9.42477796076938", "-9.42477796076938", "6.5", "-6.5", "12.6", "-12.6",
+		"13.0", "19.5", "-25.25", "31.4", "100.125", "-100.125", "1000.3", "12345.678", "-54321.0987",
+		"1000000.5", "16777217", "-16777219", "0.1000000001", "1e-8", "-1e-8", "1e-3", "3.14159265358979323846",
+		"6.283185307179586", "12.566370614359172", "1.5707963267948966", "0.7853981633974483",
+		"3.1415927", "3.1415925", "6.2831855", "6.283185", "2.5e1", "-0.5e1"}
+	for k := -12; k <= 12; k++ {
+		if k != 0 {
+			res = append(res, strconv.FormatFloat(float64(k)*math.Pi/2, 'f', 12, 64))
+		}
+	}
+	return res
+}
+
+var specials = specialAngles()
+
+// angle of a parametric gate: generic, special, near a multiple of pi/2, several turns, large
+func angle(r *common.Rng) string {
+	switch d := r.Intn(20); {
+	case d < 8:
+		return genericAngle(r)
+	case d < 11:
+		return specials[r.Intn(len(specials))]
+	case d < 14: // near (but not at) a multiple of pi/2, up to +-8pi
+		k := r.Intn(33) - 16
+		deltas := []float64{1e-2, 1e-3, 1e-4, 1e-5, 1e-6}
+		dl := deltas[r.Intn(len(deltas))]
+		if r.Bool() {
+			dl = -dl
+		}
+		return strconv.FormatFloat(float64(k)*math.Pi/2+dl, 'f', 9, 64)
+	case d < 18: // several turns, both signs
+		a := float64(r.Intn(800000))/10000.0 - 40.0
+		return strconv.FormatFloat(a, 'f', 4, 64)
+	default: // large magnitudes
+		a := float64(r.Intn(2000000))/7.0 - 140000.0
+		return strconv.FormatFloat(a, 'f', 3, 64)
+	}
+}
+
+// every parametric gate with every special angle, alone on 1 qubit and in the middle of 3 qubits
+func genAngles() {
+	for _, k := range par1 {
+		for _, a := range specials {
+			runCase("a", 1, []gate{{k, []int{0}, a}})
+			runCase("a", 3, []gate{{k, []int{1}, a}, {"cx", []int{2, 1}, ""}})
 		}
 	}
 }
@@ -390,6 +444,8 @@ func main() {
 		genPairs(r, atoi(2), atoi(3) == 1)
 	case "layers":
 		genLayers(r, atoi(2), atoi(3))
+	case "angles":
+		genAngles()
 	case "replay":
 		replay(os.Args[2])
 	default:
